@@ -71,6 +71,8 @@ type UDPBackend struct {
 }
 
 type TCPBackend struct {
+	// guards conn: Send runs on the message loop, Close on the goroutine that removes the backend
+	sync.Mutex
 	localAddr             string
 	backendAddr           string
 	conn                  net.Conn
@@ -192,6 +194,8 @@ func (t *TCPBackend) Send(msg *Message) error {
 	if err != nil {
 		return err
 	}
+	t.Lock()
+	defer t.Unlock()
 
 	zap.L().Info("send message to TCP backend with conn", zap.String("backendAddr", t.backendAddr), zap.Any("conn", t.conn))
 
@@ -235,6 +239,8 @@ func (t *TCPBackend) GetAddress() string {
 }
 
 func (t *TCPBackend) Close() {
+	t.Lock()
+	defer t.Unlock()
 	if t.conn != nil {
 		t.conn.Close()
 	}
